@@ -14,6 +14,10 @@ PROPS = {
     "C08": P(60000, 1500000, expect_reach=["c08.lapping_entries"], assumptions=["ABT_barrier_reinit is called only while nobody waits (API precondition)"]),
     "C09": P(60000, 1500000, expect_reach=["c09.waits_blocked_before_set", "c09.tests_ready"], assumptions=["ABT_eventual_reset is called only at quiescent points (no waiter, no setter in flight)"]),
     "C10": P(60000, 1500000, expect_reach=["c10.reads_sharing_the_lock"], assumptions=["lockers unlock what they locked; finite programs (no reader stream that starves a writer for ever)"]),
+    "C11": P(60000, 1500000, expect_reach=["c11.resumes", "c11.yield_to", "c11.suspend_to", "c11.resume_yield_to", "c11.resume_suspend_to", "c11.exit_to", "c11.resume_exit_to", "c11.create_to", "c11.revive_to", "c11.thread_yield_to"],
+             assumptions=["directed-switch targets satisfy the documented preconditions (popped from their pool / observed BLOCKED / TERMINATED); ABT_thread_yield_to only with a pool served by the calling stream"]),
+    "C02": P(60000, 1500000, expect_reach=["c02.resumes", "c02.yield_to", "c02.suspend_to", "c02.resume_yield_to", "c02.exit_to", "c02.create_to", "c02.revive_to"],
+             assumptions=["as C11; canaries cover rbx, rbp, r12-r15, MXCSR rounding/masks and the x87 control word"]),
     "C19": P(60000, 1500000, expect_reach=["c19.timeouts", "c19.signal_with_certain_waiter"],
              assumptions=["deadlines are relative to the run's virtual time scale; TIMEDOUT is checked against the virtual clock, never against elapsed steps"]),
     "C01": P(50000, 1200000, assumptions=["units that create other units finish before streams are joined (a creation racing with the join of the only stream serving the target pool is the program's error)"]),
